@@ -63,11 +63,20 @@ def one(rng, cid, cases, viol, dist, samples):
     fails = []
     tmin = rng.choice([-1.0, 0.0, 0.3]); tmax = tmin + rng.choice([0.5, 1.0, 7.0])
     cfg = dict(kind=kind, method=method)
+    # a third of the generators is configured for residual-adaptive refinement (pre-allocated store, part of it active):
+    # the whole store and every batch must still lie in the domain
+    use_rar = rng.random() < 0.35
+    cfg["rar"] = use_rar
     try:
         if kind == "ode":
             nt = rng.choice([1, 5, 7, 49, 12]); bt = rng.randint(1, min(nt, 4))
             cfg.update(nt=nt, bt=bt, tmin=tmin, tmax=tmax)
-            g = jinns.data.DataGeneratorODE(key, nt, tmin, tmax, bt, method)
+            if use_rar and nt >= 5:
+                bt = min(bt, 2); cfg["bt"] = bt
+                g = jinns.data.DataGeneratorODE(key, nt, tmin, tmax, bt, method, rar_parameters={"start_iter": 0, "update_every": 1, "sample_size_times": 3, "selected_sample_size_times": 1},
+                                                nt_start=max(bt, nt // 2))
+            else:
+                g = jinns.data.DataGeneratorODE(key, nt, tmin, tmax, bt, method)
             st = np.asarray(g.times)
             if st.shape != (nt,):
                 fails.append(f"{st.shape[0]} time points stored, {nt} requested")
@@ -93,8 +102,13 @@ def one(rng, cid, cases, viol, dist, samples):
             else:
                 nt = rng.choice([3, 5, 49]); bt = rng.randint(1, 3)
                 cfg.update(nt=nt, bt=bt, tmin=tmin, tmax=tmax)
+                rkw = {}
+                if use_rar and nt >= 5 and n >= 4:
+                    bt = min(bt, 2); bx = min(bx, 2); cfg.update(bt=bt, bx=bx)
+                    rkw = dict(rar_parameters={"start_iter": 0, "update_every": 1, "sample_size_times": 3, "selected_sample_size_times": 1,
+                                               "sample_size_omega": 3, "selected_sample_size_omega": 1}, n_start=max(bx, n // 2), nt_start=max(bt, nt // 2))
                 g = jinns.data.CubicMeshPDENonStatio(key=key, n=n, nb=None, nt=nt, omega_batch_size=bx, omega_border_batch_size=None, temporal_batch_size=bt, dim=dim,
-                                                     min_pts=tuple(mins), max_pts=tuple(maxs), tmin=tmin, tmax=tmax, method=method)
+                                                     min_pts=tuple(mins), max_pts=tuple(maxs), tmin=tmin, tmax=tmax, method=method, **rkw)
                 st = np.asarray(g.times)
                 if st.shape != (nt,) or not (np.all(st >= tmin) and np.all(st <= tmax)):
                     fails.append(f"times store of shape {st.shape} or outside [tmin, tmax]")
@@ -118,6 +132,8 @@ def one(rng, cid, cases, viol, dist, samples):
         viol.append({"detail": f, "case": cfg})
     k = f"{kind}_{method}_dim{cfg.get('dim', 1)}"
     dist[k] = dist.get(k, 0) + 1
+    if cfg.get("rar") and "fori" not in k:
+        dist["configured_for_refinement"] = dist.get("configured_for_refinement", 0) + 1
     if len(samples) < 3:
         samples.append(cfg)
     return cfg
